@@ -132,34 +132,33 @@ def g_sensor(rng, shape="rand"):
 def g_case(rng):
     nl, ns = rng.randint(1, 4), rng.randint(1, 3)
     shape0 = rng.choice(PIX)
-    mixed = rng.random() < 0.3
+    mixed = rng.random() < 0.15
     objs = [g_leaf(rng) for _ in range(nl)] + [g_sensor(rng, "rand" if mixed else shape0) for _ in range(ns)]
     leaves, sens = list(range(nl)), list(range(nl, nl + ns))
-    # sources
+    # sources (a child can only have one parent: every object goes into at most one collection)
     sources = []
-    x = rng.random()
-    if x < 0.03:
-        sources = []
-    else:
+    taken = set()
+    if rng.random() >= 0.03:
         for _ in range(rng.randint(1, 3)):
             y = rng.random()
             if y < 0.6:
                 sources.append({"bare": rng.choice(leaves)})
-            elif y < 0.93:
-                kids = [rng.choice(leaves + sens) for _ in range(rng.randint(1, 3))]
-                kids = list(dict.fromkeys(kids))
+            elif y < 0.94:
+                kids = [k for k in dict.fromkeys(rng.choice(leaves) for _ in range(rng.randint(1, 3)))
+                        if k not in taken]
+                if rng.random() < 0.3:
+                    kids.append(rng.choice(sens))          # a sensor inside a source collection is ignored
+                kids = [k for k in kids if k not in taken]
+                if not any(k in leaves for k in kids) and rng.random() < 0.85:
+                    sources.append({"bare": rng.choice(leaves)})
+                    continue
+                taken.update(kids)
                 sources.append({"coll": kids})
             else:
                 sources.append({"bad": rng.choice(["sensor", "int", "emptycoll"])})
-    # a child can only have one parent: later collections drop children that are already taken
-    taken = set()
-    for s in sources:
-        if "coll" in s:
-            s["coll"] = [k for k in s["coll"] if k not in taken]
-            taken.update(s["coll"])
     # observers
     z = rng.random()
-    if z < 0.05:
+    if z < 0.04:
         observers = {"kind": "bad", "what": rng.choice(["none", "empty", "int"])}
     elif z < 0.2:
         observers = {"kind": "arr", "shape": rng.choice([[3], [2, 3], [2, 2, 3], [1, 3]])}
@@ -169,13 +168,18 @@ def g_case(rng):
             y = rng.random()
             if y < 0.7:
                 ent.append({"sens": rng.choice(sens)})
-            elif y < 0.85:
-                kids = [k for k in dict.fromkeys(rng.choice(sens + leaves) for _ in range(rng.randint(1, 3)))
-                        if k not in taken]
+            elif y < 0.88:
+                kids = [k for k in dict.fromkeys(rng.choice(sens) for _ in range(rng.randint(1, 2))) if k not in taken]
+                if rng.random() < 0.3:
+                    kids += [k for k in [rng.choice(leaves)] if k not in taken]
+                if not any(k in sens for k in kids) and rng.random() < 0.85:
+                    ent.append({"sens": rng.choice(sens)})
+                    continue
                 taken.update(kids)
                 ent.append({"coll": kids})
-            elif y < 0.95:
-                ent.append({"vec": rng.choice([[3], [2, 3]])})
+            elif y < 0.96:
+                ent.append({"vec": shape0 if (shape0 is not None and len(shape0) <= 2 and rng.random() < 0.7)
+                            else rng.choice([[3], [2, 3]])})
             else:
                 ent.append({"badent": "str"})
         if not any("sens" in e or "coll" in e for e in ent):
@@ -867,9 +871,11 @@ def check_scene(sc):
         out.append(("identical-result/outcome", f"first call {CODE_NAME[exc_code(e1)]}, second {CODE_NAME[exc_code(e2)]}"))
     elif e1 is None and not _same_value(v1, v2):
         bits = d is not None and d[0] == "orientation-bits"
+        if hasattr(v1, "select_dtypes"):
+            v1, v2 = v1.select_dtypes("number").to_numpy(), v2.select_dtypes("number").to_numpy()
         a1, a2 = np.asarray(v1, dtype=float), np.asarray(v2, dtype=float)
         small = a1.shape == a2.shape and np.allclose(a1, a2, rtol=1e-9, atol=1e-300)
-        if bits or small:
+        if bits:
             out.append(("identical-result/orientation-bits-after-tiling",
                         "the second identical call returned a value differing in the last bits "
                         f"(max abs diff {np.abs(a1 - a2).max():.1e})"))
@@ -951,6 +957,9 @@ def check_dict_iface(ctx, n):
         arrays = {}
         kw = {}
         for p, v in params.items():
+            if np.ndim(v) == 0:
+                kw[p] = v                      # scalars are passed as python numbers
+                continue
             a = np.array(v, dtype=float)
             mode = rng.choice(["single", "tiled", "int"])
             if mode == "tiled":
@@ -962,9 +971,12 @@ def check_dict_iface(ctx, n):
         obs = np.array([[rng.uniform(-3, 3) for _ in range(3)] for _ in range(k)])
         pos = np.array([[rng.uniform(-1, 1) for _ in range(3)] for _ in range(k)])
         arrays["observers"], arrays["position"] = obs, pos
-        fault = rng.random() < 0.25
-        if fault:
-            kw["bogus_param"] = np.ones((k + 5, 3))        # incompatible length -> MagpylibBadUserInput
+        fault = rng.choice([None, None, None, None, "length", "kwarg"])
+        if fault == "length":                   # incompatible lengths -> MagpylibBadUserInput
+            pos = np.ones((k + 5, 3))
+            arrays["position"] = pos
+        elif fault == "kwarg":                  # unknown parameter -> TypeError inside the field function
+            kw["bogus_param"] = np.ones((k, 3))
             arrays["bogus_param"] = kw["bogus_param"]
         before = {p: (a.copy(), a.dtype, a.shape) for p, a in arrays.items()}
         try:
